@@ -123,7 +123,8 @@ pub fn generate(ctx: &mut Ctx, which: Which) -> Option<Fam> {
 }
 
 pub fn generate_with(ctx: &mut Ctx, which: Which, tweak: impl FnOnce(&mut scen::CompressSpec)) -> Option<Fam> {
-    let big = gen::chance(1, if ctx.tier == crate::harness::Tier::Thorough { 40 } else { 600 });
+    // (C06/C07: a run of adjacent chunks of more than a MiB as stored needs a source of MiBs)
+    let big = gen::chance(1, if ctx.tier == crate::harness::Tier::Thorough { 40 } else if matches!(which, Which::C06) { 200 } else { 600 });
     let max_len = if big { 3 << 20 } else { 64 * 1024 };
     let made = crate::props::c01::make_archive_with(ctx, max_len, big, None, tweak)?;
     generate_from(ctx, which, made)
@@ -211,6 +212,13 @@ pub struct ExecExtra {
     pub no_force: bool,
     /// --http-retry-count (HTTP only)
     pub retries: u32,
+    /// --http-timeout in seconds (HTTP, CLI only)
+    pub timeout: Option<u64>,
+    /// pass the (existing, regular) output itself as one more --seed, under this spelling.
+    /// Every chunk a seed delivers is verified by content, so the output is still exact; which
+    /// chunks the aliased seed still holds when they are scanned depends on the order of the
+    /// writes, so fetch-set oracles do not apply to such a run.
+    pub alias_output_as_seed: Option<&'static str>,
 }
 
 /// `presented`: the bytes actually served / stored as the archive (a corrupted copy)
@@ -237,7 +245,7 @@ pub fn execute_with(f: &Fam, presented: Option<&[u8]>, extra: &ExecExtra) -> Obs
                 let _ = std::fs::remove_file("a.cba");
             });
         }
-        let mut opts = CloneOpts { http: f.http, seed_output: f.seed_output, verify_output: f.verify_output, buffers: f.buffers, verbose: f.verbose, verify_header: extra.verify_header.clone(), retries: if f.http { extra.retries } else { 0 }, ..Default::default() };
+        let mut opts = CloneOpts { http: f.http, seed_output: f.seed_output, verify_output: f.verify_output, buffers: f.buffers, verbose: f.verbose, verify_header: extra.verify_header.clone(), retries: if f.http { extra.retries } else { 0 }, timeout: if f.http { extra.timeout } else { None }, ..Default::default() };
         let mut stdin_data = None;
         for (i, (_, data)) in f.seeds.iter().enumerate() {
             if f.stdin_at == Some(i) {
@@ -248,6 +256,11 @@ pub fn execute_with(f: &Fam, presented: Option<&[u8]>, extra: &ExecExtra) -> Obs
                 opts.seeds.push(name);
             }
         }
+        // a generous --http-timeout changes nothing: no simulated transfer takes a day
+        if f.http && opts.timeout.is_none() && gen::chance(1, 4) {
+            opts.timeout = Some(86_400);
+            simkit::count("probe:benign-http-timeout");
+        }
         if stdin_data.is_some() {
             // position of "--seed -" among the file seeds (bita always consumes stdin first)
             opts.seed_stdin_at = Some(gen::draw(opts.seeds.len() as u32 + 1) as usize);
@@ -255,6 +268,11 @@ pub fn execute_with(f: &Fam, presented: Option<&[u8]>, extra: &ExecExtra) -> Obs
         scen::set_stdin(stdin_data);
         match &f.prior {
             Some(p) => {
+                if let Some(spelling) = extra.alias_output_as_seed {
+                    let at = gen::draw(opts.seeds.len() as u32 + 1) as usize;
+                    opts.seeds.insert(at, spelling.to_string());
+                    simkit::count("probe:output-is-also-a-seed");
+                }
                 scen::put_file("out.bin", p);
                 if !f.seed_output && !extra.no_force {
                     opts.force_create = true;
